@@ -290,6 +290,26 @@ def check(ctx, replay=None):
             ctx.note("GOARCH %s: error text is %r" % (r["goarch"], r["getinfo_err"]))
     # compilation on GOARCHs without tables, executed on the host through a build overlay
     simviol = simulate_goarch(ctx, bindir, goarches, ("386", "amd64", "arm", "arm64"))
+    # "a policy compiles to the same program wherever it is compiled": the harness command detrace built for linux/386 runs natively on
+    # this host; its compilations of a fixed set of policies (argument conditions included) for each syscall table must equal the amd64 build's
+    hsrc = os.path.dirname(bindir)
+    d386 = os.path.join(bindir, "detrace_386")
+    rc, o, e = ctx.run(["go", "build", "-tags", "verif", "-o", d386, "./cmd/detrace"], cwd=hsrc, env={"GOARCH": "386", "CGO_ENABLED": "0"}, timeout=900)
+    progviol = []
+    if rc != 0:
+        ctx.note("the harness does not build for linux/386: " + e[-200:])
+    else:
+        r64 = ctx.run([os.path.join(bindir, "detrace"), "-mode", "programs"], timeout=120)
+        r32 = ctx.run([d386, "-mode", "programs"], timeout=120)
+        if r64[0] != 0 or r32[0] != 0:
+            ctx.note("the program comparison between linux/amd64 and linux/386 could not be run (%s / %s)" % (r64[2][-100:], r32[2][-100:]))
+        else:
+            p64, p32 = json.loads(r64[1]), json.loads(r32[1])
+            ctx.cov["evaluations"] += len(p64)
+            ctx.cov["programs_compared_across_cpu_targets"] = len(p64)
+            diff = sorted(k for k in p64 if p64[k] != p32.get(k))
+            if diff:
+                progviol.append(("the same policy compiles to different programs on linux/amd64 and linux/386 (both executed on this host): %s" % diff[:4], {"differs": diff, "amd64": {k: p64[k] for k in diff[:4]}, "386": {k: p32.get(k) for k in diff[:4]}}))
     # the same predicates decided by TLC on the facts
     data = {"targets": rows, "uapi": {k: str(v) for k, v in u.items()}, "enosys": {a: str(enosys_of(a)) for a in goarches}}
     dpath = ctx.path("consts.json")
@@ -299,7 +319,7 @@ def check(ctx, replay=None):
     r = ctx.tlc("ConstsMC", "SPECIFICATION Spec\nINVARIANTS I1 I2 I3 I4\nCHECK_DEADLOCK FALSE\n", files={"ConstsData.tla": datamod, "ConstsMC.tla": mc}, workers=2, timeout=600)
     if bool(viol) != bool(r["violated"]):
         raise vlib.Machinery("TLC (%s) and the witness search (%d) disagree" % (r["violated"], len(viol)))
-    for msg, w in viol + simviol:
+    for msg, w in viol + simviol + progviol:
         ctx.violation(msg, {"witness": w, "targets": targets, "how": "./check C19 --replay <this file> (re-extracts the facts for the listed targets)"})
     if "error_wording" in ctx.cov:
         for n in sorted(ctx.cov.pop("error_wording"))[:5]:
